@@ -249,4 +249,24 @@ PROPS = {
         "assumptions": ["crossbeam::channel::unbounded and the kernel's Unix datagram sockets are reliable FIFOs per sender",
                         "a full Unix socket queue makes send fail (kernel flow control); the sender retries: not counted as loss"],
     },
+    "C01": {
+        "coq": "Properties/C01.v",
+        "level_text": "PARTIAL. The full statement (C01_full_statement: image installed and run on the reference datapath == source semantics, invocation by invocation, for every "
+                      "well-typed accepted program outside the clobber class and every input sequence) is stated over executable definitions of both sides; proved so far: "
+                      "C01_operators_agree (machine instruction semantics == source operator semantics incl. every fault rule, for all 64-bit operands), C01_clobbers_refuted "
+                      "(the statement is false without the clobber hypothesis: the recorded finding, with witness) and kernel-evaluated non-vacuity witnesses (fallthrough/report, "
+                      "volatile reset, ewma, conditionals, locals, boundary inputs, a fault). The verdict rests on these plus three correspondence legs run on every check: portus' compiler "
+                      "vs the compiler model (byte-identical images, C03/C10/C13 streams), the libccp model vs the compiled libccp C code, and the source semantics vs what the real "
+                      "libccp does with the bytes portus produced (return code, cwnd/rate callbacks, report bytes and all registers after every invocation).",
+        "level_note": "Coq kernel (vm_compute for the witnesses); no axioms; libccp 1.2.0 compiled unmodified is the reference datapath (oracle); SrcSem is a specification written "
+                      "independently of the compiler model (no registers/temporaries/placeholders); libccp's legacy reading of an initial value 0x3fffffff as infinity puts such programs outside the quantifier.",
+        "streams": ["dp"],
+        "rule": "grammar-generated well-typed programs (0-17 report and control variables, locals, 1-4 events, all 16 operators in both spellings, if/!if/ewma binds, report/fallthrough) "
+                "compiled by portus, installed with a change-program carrying 0-2 control/cwnd/rate updates, run for 1-12 invocations (thorough: up to 80) with boundary-heavy "
+                "primitive vectors (0, 1, 2^31, 2^32-1, 2^63, 2^64-1, random) and monotone clocks, update-fields messages in between; five hand-written nested-bind programs; "
+                "non-trivial = at least one invocation ran and the program is inside the quantifier (predicate applied: ok or FAIL); distinct by (program, script)",
+        "nontrivial": lambda r: (r["verdict"] == "ok" or r["verdict"].startswith("FAIL")) and " I0" in r["impl"],
+        "assumptions": ["libccp walks instructions with a u8 index: programs are assumed to have at most 255 instructions (fits_datapath)",
+                        "set_cwnd/set_rate_abs take u32: settings are compared modulo 2^32"],
+    },
 }
